@@ -964,10 +964,10 @@ func c09Prepare(x *c09Hist) (*c09PruneRun, bool) {
 }
 
 func streamC09(h *H) {
-	nh := h.N(4, 120)
+	nh := h.N(4, 48)
 	nopt := 3
 	if h.Thorough() {
-		nopt = 12
+		nopt = 6
 	}
 	for i := 0; i < nh; i++ {
 		x := c09GenHistory(h)
@@ -1004,7 +1004,7 @@ func streamC10(h *H) {
 		c09SynthCase(h, 1000000+i, true)
 	}
 	// (b) completed full prunes of real histories: after-state and reported statistics
-	nh := h.N(8, 400)
+	nh := h.N(8, 240)
 	for i := 0; i < nh; i++ {
 		x := c09GenHistory(h)
 		run, ok := c09Prepare(x)
